@@ -1,5 +1,5 @@
 From Coq Require Import ExtrOcamlBasic.
-From ChibiV Require Import Common.ExtractBase C18.Spec C18.Model C18.Oracle C18.SpecCont C18.ISet.
+From ChibiV Require Import Common.ExtractBase C18.Spec C18.Model C18.Oracle C18.SpecCont C18.ISet C18.Deque C18.RaList.
 Extraction "model.ml" ext_base spec_sort spec_merge spec_sorted spec_select spec_dedup
   model_sort_less model_sort_basic model_merge95 model_vmerge132 model_scratch_less
   set_mem set_adjoin set_delete set_union set_of_list set_inter set_diff set_xor set_subset set_equal set_disjoint
@@ -10,4 +10,11 @@ Extraction "model.ml" ext_base spec_sort spec_merge spec_sorted spec_select spec
   seq_take_while_mod seq_drop_while_mod seq_skip_mod seq_index_right_mod seq_sub seq_reverse_range seq_fill_range
   seq_swap seq_iota seq_partition_mod seq_remove_front seq_remove_back seq_back seq_add_back seq_take seq_drop
   contains adjoin1 adjoin_list delete1 union2 make_iset0 to_list iset_size is_empty
-  seq_append_reverse seq_map1 seq_filter_mod seq_remove_mod seq_any_mod seq_every_mod seq_equal.
+  seq_append_reverse seq_map1 seq_filter_mod seq_remove_mod seq_any_mod seq_every_mod seq_equal
+  dq_empty dq_check dq_to_list dq_of_list dq_tabulate dq_is_empty dq_add_front dq_front dq_remove_front dq_add_back dq_back dq_remove_back
+  dq_reverse dq_length dq_ref dq_take dq_take_right dq_drop dq_drop_right dq_split_at dq_append_all dq_append dq_count dq_zip2 dq_map
+  dq_filter_map dq_fold dq_fold_right dq_for_each_order dq_for_each_right_order dq_append_map dq_filter dq_remove dq_partition dq_find
+  dq_find_right dq_take_while dq_take_while_right dq_drop_while dq_drop_while_right dq_span dq_break dq_any dq_every dq_drain dq_equal
+  span_list break_list filter_map_list remove_list count_list list_eq take_right_list
+  ra_cons ra_car_cdr ra_car ra_cdr ra_list_ref ra_list_ref_update ra_list_set ra_of_list ra_largest_skew_binary ra_make_list ra_length
+  ra_to_list ra_flat ra_append ra_reverse ra_list_tail ra_map ra_map2 ra_map3 ra_for_each2 ra_equal ra_sizes.
